@@ -10,10 +10,61 @@ import sys
 import traceback
 
 
+def install_probe(events):
+    """Harness-side observation of the generator's phases and accumulators (no source change): wraps
+    PackageGenerator.add_operation and the _generate_* phases and logs the accumulators AFTER each step.
+    Anything that cannot be observed (renamed attribute) is logged as absent, never guessed."""
+    from ariadne_codegen.client_generators import package as pkgmod
+    PG = pkgmod.PackageGenerator
+
+    def snap(self):
+        out = {}
+        for attr, key in (("_unpacked_fragments", "unpacked"), ("_fragments_used_as_mixins", "mixins"),
+                          ("_used_enums", "used_enums"), ("_generated_files", "files")):
+            if hasattr(self, attr):
+                out[key] = sorted(set(getattr(self, attr)))
+        try:
+            out["used_inputs"] = sorted(set(self.client_generator.arguments_generator.get_used_inputs()))
+            out["arg_enums"] = sorted(set(self.client_generator.arguments_generator.get_used_enums()))
+        except Exception:  # noqa
+            pass
+        return out
+
+    def wrap(name, kind):
+        orig = getattr(PG, name, None)
+        if orig is None:
+            return
+
+        def w(self, *a, **k):
+            ev = {"e": kind, "name": name}
+            if kind == "add_operation" and a:
+                try:
+                    ev["op"] = a[0].name.value
+                except Exception:  # noqa
+                    pass
+            try:
+                return orig(self, *a, **k)
+            except BaseException as ex:
+                ev["raised"] = type(ex).__name__
+                raise
+            finally:
+                ev.update(snap(self))
+                events.append(ev)
+        setattr(PG, name, w)
+
+    wrap("add_operation", "add_operation")
+    for ph in ("_include_exceptions", "_validate_unique_file_names", "_generate_input_types", "_generate_result_types",
+               "_generate_fragments", "_copy_files", "_generate_custom_fields_typing", "_generate_custom_fields",
+               "_generate_custom_queries", "_generate_custom_mutations", "_generate_client", "_generate_enums",
+               "_generate_init"):
+        wrap(ph, "phase")
+
+
 def main():
     jobdir = os.path.abspath(sys.argv[1])
     strategy = "client"
     audit = False
+    probe = False
     config = None
     args = sys.argv[2:]
     i = 0
@@ -21,6 +72,8 @@ def main():
         a = args[i]
         if a == "--audit":
             audit = True
+        elif a == "--probe":
+            probe = True
         elif a == "--config":
             config = args[i + 1]
             i += 1
@@ -45,6 +98,8 @@ def main():
             except Exception:  # never disturb the run
                 pass
         sys.addaudithook(hook)
+    if probe:
+        install_probe(events)
     from click.testing import CliRunner
     from ariadne_codegen.main import main as cli
     cli_args = []
